@@ -458,6 +458,11 @@ def run(tier='quick'):
     _throws(prog, cg, chk, U7)
     _handle_contract(prog, cg, eff, chk, U8)
     _recursion(prog, cg, chk, U9)
+    # the acyclicity U9 relies on: the cycle guards of set_parent (both generations) and, for 1.x, the
+    # closure table the guard reads being written in full by every operation that adds or moves a crate
+    from . import c07, c11
+    c07.cycle_guard(prog, cg, eff, chk, U9)
+    c11.forest_encodings(prog, cg, eff, chk, U9, only=('sub', 'move'), paths=False)
     return chk.finish('must-fact (dominance) analysis over the structured AST of every function of the library '
                       'outside the schema creators: %d functions; optional dereferences, container indexing, '
                       'iterator uses and integer divisions are obligations discharged by dominating guards' % len(chk.functions_analysed))
